@@ -187,3 +187,17 @@ pub fn rhythm_universes(cfgs: &[ModeCfg], mlen: u32, reps: u32) -> Vec<MotifUniv
         }))
         .collect()
 }
+
+/// Thorough-tier extension: more interval families (1:2:3:4 stream ratios, 1:2:4 beats, 1:3:9 slow), motifs of <= 4 / 5
+/// notes over two colours played twice.
+pub fn rhythm_universes_wide(cfgs: &[ModeCfg]) -> Vec<MotifUniverse> {
+    let mut out = Vec::new();
+    for (name, gaps, mlen) in [("1:2:3:4", vec![60u32, 120, 180, 240], 4u32), ("1:2:4", vec![250, 500, 1000], 5), ("1:3:9", vec![400, 1200, 3600], 5), ("16x", vec![75, 300, 1600], 5)] {
+        for cfg in cfgs.iter().filter(|c| c.src != 3) {
+            let alpha = Alphabet::product(&[Kind::Circle], &gaps, &[PosK::Far], &[0, 8], &[0]);
+            let total = alpha.count_upto(mlen) - 1;
+            out.push(MotifUniverse { name: format!("rhythm-{name}/{}to{}/len<={mlen}-x2/|A|={}", cfg.src, cfg.dst, alpha.len()), cfg: *cfg, alpha, mlen, reps: 2, total });
+        }
+    }
+    out
+}
